@@ -18,13 +18,14 @@ from numpy.polynomial import legendre as L
 from gridrv.monitors import transform1d as mon
 from gridrv.oracles import numdiff as nd
 from gridrv.oracles import signatures_c0304 as sig
+from gridrv.monitors import roundtrip
 from gridrv.props import c03
 
 PROP = "C04"
 TITLE = "Transforming a 1D grid is a faithful change of variables"
 REQUIRED_HOOKS = ["BaseTransform.transform_1d_grid", "decided:weights-magnitude", "decided:weights-sign", "decided:domain-image", "decided:sum-identity", "decided:points-dtype", "decided:sequence-repeat", "decided:construction"]
 FAM_TF = [c03.CLS[k] for k in c03.KINDS] + ["InverseRTransform"]
-REQUIRED_FAMILIES = FAM_TF + ["chain", "subdomain", "gl-linear-exactness", "exp-integral", "incidental", "pinned", "sequence", "dtype-grid", "boundary", "large-n", "construction"]
+REQUIRED_FAMILIES = FAM_TF + ["chain", "subdomain", "gl-linear-exactness", "exp-integral", "incidental", "pinned", "sequence", "dtype-grid", "boundary", "large-n", "construction", "clones", "option-values", "warnings-as-errors"]
 BUDGET = {"quick": 900, "thorough": 7200}  # per-worker seconds; expected on 16 idle cores: quick ~10 s, thorough ~3-4 min
 MAX_DISCARD_FRACTION = 0.02
 TOL_EXPINT = 1e-3  # |beta*I - 1|; largest quadrature error seen (GL n=60/120, beta*R in [2,4]) 2.8e-6; the sign defect gives 2
@@ -176,6 +177,13 @@ def cases(tier, seed):
         out.append(("construction", {"tf": {"kind": kind, **p}}, 1.0))
     for q in sorted(sig.QUADRATURE_ORDER):
         out.append(("construction", {"quad": q}, 1.0))
+    # (f) clones of the transform (copy / deepcopy / pickle; before and after b was learned), equal-but-not-identical flag values,
+    #     warnings turned into errors: the transformed grid is the same
+    for kind, p in c03.construction_sets():
+        out.append(("clones", {"tf": {"kind": kind, **p}}, 1.5))
+        out.append(("warnings-as-errors", {"tf": {"kind": kind, **p}}, 1.0))
+        if "trim" in p:
+            out.append(("option-values", {"tf": {"kind": kind, **p}}, 1.0))
     for kind, p in c03._boundary():
         rules = ("GaussLegendre:8", "Trapezoidal:5", "int64-simpson") if kind in KINDS_M11 else ("UniformInteger:6", "GaussLaguerre:6")
         for r in rules:
@@ -264,6 +272,11 @@ def build_tf(ctx, tfp, inv, rule_grid):
         p["fixed"] = fixed
     if "pos" not in p:
         p["pos"] = bool(rng.integers(2))  # every second transform object is constructed positionally (documented order)
+        fsp = c03.FLAG_CYCLE[int(rng.integers(4))]
+        if fsp and "trim" in p:
+            p["flagspell"] = fsp  # trimming flag as np.bool_ / int / np.int64
+        if rng.random() < 0.3:
+            p["clone"] = roundtrip.pick(rng)[0]  # the object went through copy / deepcopy / pickle
     I = c03.build(p, rng)
     tf = rt.InverseRTransform(I.tf) if inv else I.tf
     return I, tf
@@ -518,6 +531,8 @@ def run_case(ctx, family, params):
             ctx.trivial()
     elif family == "construction":
         _construction(ctx, params)
+    elif family in ("clones", "option-values", "warnings-as-errors"):
+        _object_forms(ctx, family, params)
     elif family == "pinned":
         _pinned(ctx, params["what"])
     else:
@@ -660,6 +675,102 @@ def _construction(ctx, params):
         res["p"] = pos.transform_1d_grid(g)
     if "p" in res:
         sig.compare_grids(ctx, cname + ".transform_1d_grid", res["p"], res["k"])
+
+
+def _grid_vec(g):
+    return np.concatenate([np.asarray(g.points, dtype=float), np.asarray(g.weights, dtype=float), np.asarray(g.domain, dtype=float)])
+
+
+def _object_forms(ctx, family, params):
+    """Clones / flag spellings / warnings-as-errors: the grid produced by transform_1d_grid is the one of the plain object
+    (every call also goes through the attached post-condition)."""
+    import warnings
+
+    import grid.onedgrid as og
+    import grid.rtransform as rt
+
+    tfp = params["tf"]
+    m11 = tfp["kind"] in KINDS_M11
+    rules = [og.GaussLegendre(8), og.Trapezoidal(5)] if m11 else ([og.UniformInteger(7)] if tfp["kind"] == "Power" else [og.UniformInteger(7), og.GaussLaguerre(6)])
+    I, _ = build_tf(ctx, {**tfp, "pos": False}, False, rules[0] if m11 else og.UniformInteger(20))
+    cname = c03.CLS[I.kind]
+    cls = getattr(rt, cname)
+    learned = tfp.get("bmode") == "learned"
+
+    def grid_of(tf, g, label):
+        if not admissible(I, False, tf, g):
+            # closed rule through a map that is singular at that end: only equality of the outcome is decided, no post-condition
+            try:
+                with np.errstate(all="ignore"):
+                    return _grid_vec(tf.transform_1d_grid(g))
+            except Exception as exc:  # noqa: BLE001
+                return ("raised", type(exc).__name__)
+        new, _o = transform_and_check(ctx, tf, g, label)
+        return ("raised", "see transform-succeeds") if new is None else _grid_vec(new)
+
+    def same(a, b):
+        if isinstance(a, tuple) or isinstance(b, tuple):
+            return a == b
+        return a.shape == b.shape and bool(np.array_equal(a, b, equal_nan=True))
+
+    if family == "clones":
+        for kind in roundtrip.KINDS:
+            for when in ("fresh", "used"):
+                orig = cls(**I.args)
+                if when == "used":
+                    with np.errstate(all="ignore"):
+                        orig.transform(np.asarray(rules[0].points, dtype=float))
+                res = {}
+                with ctx.guard("clone-equals-original", f"{cname}:{kind}"):
+                    res["c"] = roundtrip.clone(orig, kind)
+                if "c" not in res:
+                    continue
+                bad = [type(g).__name__ for g in rules if not same(grid_of(orig, g, "clone-orig"), grid_of(res["c"], g, "clone"))]
+                if learned and when == "used":
+                    bad += [] if (res["c"].b is not None and float(res["c"].b) == float(orig.b)) else ["learned-b"]
+                ctx.check("clone-equals-original", f"{cname}:{kind}", not bad, sig=f"{when}-object:transformed-grid-differs:" + ",".join(bad), detail={"args": c03._note(I)})
+        ctx.hit("decided:clones")
+    elif family == "option-values":
+        flag = bool(I.args["trim_inf"])
+        ref = [grid_of(cls(**{**I.args, "trim_inf": flag}), g, "flag-literal") for g in rules]
+        for label, val in {"np.bool_": np.bool_(flag), "np.True_/np.False_": (np.True_ if flag else np.False_), "int": int(flag), "np.int64": np.int64(flag), "np.int8": np.int8(flag)}.items():
+            res = {}
+            with ctx.guard("option-value-equals-literal-bool", cname):
+                res["tf"] = cls(**{**I.args, "trim_inf": val})
+            if "tf" not in res:
+                continue
+            bad = [type(g).__name__ for g, r in zip(rules, ref) if not same(r, grid_of(res["tf"], g, "flag-" + label))]
+            ctx.check("option-value-equals-literal-bool", cname, not bad, sig=f"trim_inf={'on' if flag else 'off'}-as-{label}:transformed-grid-differs:" + ",".join(bad), detail={"args": c03._note(I)})
+        ctx.hit("decided:option-values")
+    else:
+        tf = cls(**I.args)
+        guarded = bool(c03.GUARDED_UNDER_W_ERROR.get(cname))
+        for g in rules:
+            if learned:
+                with np.errstate(all="ignore"):
+                    tf.transform(np.asarray(g.points, dtype=float))
+            quiet = grid_of(tf, g, "filters-default")
+            with warnings.catch_warnings():  # restores the worker's filters
+                warnings.simplefilter("error")
+                with np.errstate(all="warn"):
+                    try:
+                        loud = _grid_vec(tf.transform_1d_grid(g))
+                    except Warning as w:
+                        loud = ("warning", type(w).__name__, str(w)[:60])
+                    except Exception as exc:  # noqa: BLE001
+                        loud = ("raised", type(exc).__name__)
+            sub = f"{cname}.transform_1d_grid"
+            if isinstance(loud, tuple) and loud[0] == "warning":
+                if guarded:
+                    ctx.check("guarded-under-W-error", sub, False, sig=f"raises-{loud[1]}-under-W-error", detail={"rule": type(g).__name__, "warning": loud[2], "args": c03._note(I)})
+                else:
+                    ctx.count(f"raises-under-W-error(not-guarded-by-the-library):{sub}")
+            elif guarded:
+                ok = same(quiet, loud) if not (isinstance(quiet, tuple) and quiet[0] == "raised") else True
+                ctx.check("guarded-under-W-error", sub, ok, sig="grid-under-W-error-differs-from-default-filters", detail={"rule": type(g).__name__})
+                ctx.hit("decided:warnings-as-errors")
+        if not guarded:
+            ctx.trivial()
 
 
 def _pinned(ctx, what):
